@@ -2,11 +2,11 @@
 import random
 
 PID = 'C05'
-HEADER = ['obs nr dttrig dtrem ref ncr']
+HEADER = ['obs nr dttrig dtrem ref ncr tm']
 T0 = 2000000000
 RULE = ('scripts over the real Host/Service + Downtime objects (ops of harness/ops_ckfull.cpp: crf, dt_add, dt_remove, '
-        'dt_starttimer, dt_cleanup, pause, ackread) on a whole-second grid that contains every start/end/trigger+duration '
-        'instant and +-1 s: families fixed-boundary, flexible-edges, chain, children-remove, owned, pause, pending, random; '
+        'dt_starttimer, dt_cleanup (fires only if the REAL clean-up Timer is started and due), dt_pause (authority of the Downtime object), pause, ackread) on a whole-second grid that contains every start/end/trigger+duration '
+        'instant and +-1 s: families fixed-boundary, flexible-edges, chain, children-remove, failover (pause->resume of the downtime object before its expiry, then the timer pump), owned, pause, pending, random; '
         '70 % of the cases avoid the recorded findings\' signatures so they cannot mask anything else. '
         'non-trivial = at least one downtime was added and at least one trigger/removal event was observed; distinct = distinct script text')
 TRUSTED = ['model: coq/Ck/CkFull.v (transcription of Downtime::Start/IsInEffect/IsTriggered/IsExpired/CanBeTriggered/TriggerDowntime/'
@@ -14,10 +14,13 @@ TRUSTED = ['model: coq/Ck/CkFull.v (transcription of Downtime::Start/IsInEffect/
            'Checkable::NotifyDowntime*); agreement with the code is re-established on every run by differential execution',
            'ocaml/ops_c5.ml rebuilds the per-step records (downtimes before/after, events) from script + implementation trace',
            'hook H1 (virtual clock) in lib/base/utility.cpp; the start timer and the per-downtime clean-up timer are invoked by the script, their latency is an input',
-           'oracle checks 1-11 (attributes/trigger time never change, no trigger outside the window, removal events, DowntimeEnd count, ownership, '
-           'clean-up, trigger on result, trigger on add, DowntimeStart count, OnDowntimeTriggered events, depth) are proved to hold on every step of '
-           'every model run without a finding signature (C05_oracle_accepts_model); check 12 (chains at every level; directly chained downtimes '
-           'are proved, C05_chain) is validated against the model on the generated population only']
+           'oracle checks 1-11, 13, 14 (attributes/trigger time never change, no trigger outside the window, removal events, DowntimeEnd count, ownership, '
+           'clean-up, trigger on result, trigger on add, DowntimeStart count, OnDowntimeTriggered events, depth; nothing changes when the clean-up timer is not '
+           'armed and due; every downtime has a clean-up timer that, when armed, is due at its expiry, and is armed whenever the Downtime object is not paused) '
+           'are proved to hold on every step of every model run without the lost-start signature (C05_timer_oracle_accepts_model); check 12 (chains at every '
+           'level; directly chained downtimes are proved, C05_chain) is validated against the model on the generated population only',
+           'the clean-up timer is observed on the REAL Timer object (m_Started, m_Next) and fired through its own OnTimerExpired signal only when started and due at the '
+           'virtual time; the periodic start timer / comment-expiry timer are file-static objects in downtime.cpp / comment.cpp that the harness cannot reach: their handlers are still called directly']
 ASSUMPTIONS = ['timestamps are whole seconds (exact in binary64)',
                'the clock does not run backwards and check results are not stamped in the future (0 < execution_end <= now); checked by the oracle per step',
                'downtime names are fresh (Downtime::AddDowntime refuses an existing name)',
@@ -140,6 +143,16 @@ class G:
 
     def depth(self):
         self.lines.append('ackread')
+
+    def dt_pause(self, i=None, p=None):
+        """authority of the Downtime object itself (HA failover p=1 / failback p=0)"""
+        if not self.dts:
+            return
+        if i is None:
+            i = self.r.choice(sorted(self.dts))
+        if p is None:
+            p = self.r.randint(0, 1)
+        self.lines.append('dt_pause id=%d p=%d' % (i, p))
 
     def pause(self, p=None):
         if p is None:
@@ -268,9 +281,40 @@ def fam_pending(rnd, clean):
     return g.case('pending')
 
 
+def fam_failover(rnd, clean):
+    """pause -> resume of the Downtime object before / around its expiry, then the timer pump after expiry"""
+    g = G(rnd, clean)
+    fixed = int(rnd.random() < 0.5)
+    S = g.t + rnd.choice((-2, 0, 1))
+    E = S + rnd.choice((3, 6, 10))
+    dur = 0 if fixed else rnd.choice((2, 5))
+    i = g.add(fixed=fixed, start=S, end=E, dur=dur)
+    exp = E
+    steps = ['pause', 'resume', 'trigger', 'pump', 'pause', 'resume', 'adv', 'adv']
+    rnd.shuffle(steps)
+    for k in steps[:rnd.randint(3, 8)]:
+        if k == 'pause': g.dt_pause(i, 1)
+        elif k == 'resume': g.dt_pause(i, 0)
+        elif k == 'trigger':
+            if fixed: g.starttimer()
+            else:
+                g.result(rnd.choice((1, 2, 3)))
+                if S <= g.t <= E and exp == E: exp = g.t + dur
+                for b in (exp - 1, exp, exp + 1): g.bound.add(b)
+        elif k == 'pump': g.cleanup(i)
+        else: g.adv()
+    if rnd.random() < 0.8:
+        g.dt_pause(i, 0)
+    around(rnd, g, (exp,), lambda: (g.cleanup(i), g.depth()))
+    g.at(g.t + 20)
+    g.cleanup(i)
+    g.depth()
+    return g.case('failover')
+
+
 def fam_random(rnd, clean, n):
     g = G(rnd, clean)
-    ops = ['adv'] * 6 + ['result'] * 4 + ['add'] * 3 + ['remove'] + ['starttimer'] * 3 + ['cleanup'] * 2 + ['depth'] * 2 + ['pause']
+    ops = ['adv'] * 6 + ['result'] * 4 + ['add'] * 3 + ['remove'] + ['starttimer'] * 3 + ['cleanup'] * 3 + ['depth'] * 2 + ['pause'] + ['dt_pause'] * 2
     for _ in range(n):
         k = rnd.choice(ops)
         if k == 'adv': g.adv()
@@ -284,6 +328,7 @@ def fam_random(rnd, clean, n):
         elif k == 'cleanup': g.cleanup()
         elif k == 'depth': g.depth()
         elif k == 'pause': g.pause()
+        elif k == 'dt_pause': g.dt_pause()
     return g.case('random')
 
 
@@ -297,6 +342,7 @@ def generate(seed, tier):
         cases.append(fam_flex(rnd, clean))
         cases.append(fam_chain(rnd, clean))
         cases.append(fam_children(rnd, clean))
+        cases.append(fam_failover(rnd, clean))
         cases.append(fam_random(rnd, clean, rnd.randint(8, 40)))
         cases.append(fam_random(rnd, clean, rnd.randint(8, 40)))
         if i % 8 == 0:
@@ -311,7 +357,7 @@ def nontrivial(case, impl_lines):
 def classify(case, detail, impl_lines):
     if 'crash' in detail or 'missing-observation' in detail:
         return 'crash'
-    for key in ('lost-start', 'start-at-end-instant'):
+    for key in ('lost-start',):
         if 'finding=' + key + ' ' in detail:
             return key
     for part in detail.split():
